@@ -168,6 +168,8 @@ def probe(name, inp, timeout=120, env=None):
             except Exception:
                 pass
     if res is None:
-        return {"ok": False, "crashed": True, "rc": p.returncode, "stderr": p.stderr[-2000:]}
+        pl = p.stderr.splitlines()
+        panic = next((" ".join(x.strip() for x in pl[i:i + 2]) for i, x in enumerate(pl) if "panicked at" in x), None)
+        return {"ok": False, "crashed": True, "rc": p.returncode, "stderr": p.stderr[-2000:], "panic": panic}
     res["rc"] = p.returncode
     return res
